@@ -73,6 +73,7 @@ func Reconnect(c Client, disconnect, reset func()) *ReconnectClient {
 	e.InitialInterval = RetryBaseDelay
 	e.MaxInterval = RetryMaxDelay
 	e.RandomizationFactor = RetryRandomization
+	e.Reset() // Apply the intervals configured above.
 	return &ReconnectClient{Client: c, backoff: e, disconnect: disconnect, reset: reset}
 }
 
